@@ -17,6 +17,7 @@ type CheckCfg struct {
 	Property string      `json:"property"`
 	Level    string      `json:"level"`
 	Lock     bool        `json:"lock"`
+	Timeout  int         `json:"timeout"` // per-obligation solver timeout of the quick tier in seconds (default 10)
 	Facets   []string    `json:"facets"` // contract facets ("@name" clauses) active in this check
 	Scope    []ScopeItem `json:"scope"`
 	Replay   map[string]string `json:"replay"` // obligation glob -> driver
@@ -116,6 +117,9 @@ func cmdCheck(args []string) int {
 	}
 	p, e := loadAll()
 	timeout := 10
+	if cfg.Timeout > 0 {
+		timeout = cfg.Timeout
+	}
 	if *tier == "thorough" {
 		timeout = 60
 	}
